@@ -252,6 +252,68 @@ fn merged_scn(q: Option<u32>, t: Option<u32>) -> Scn {
   })
 }
 
+/// to_vec over a source thread that is gated by a trigger: `src.skip_until(trig)` / `src.take_until(trig)`,
+/// the trigger silent for ever or firing from a thread of its own. Whatever the gate lets through, the
+/// future is ready once the pipeline below it has terminated - and it terminates when the source does
+fn gated_scn(skip: bool, trigger_thread: bool, q: Option<u32>, t: Option<u32>) -> Scn {
+  let name = format!(
+    "c18/source thread P(n1,C).{}(trigger {}).to_vec()",
+    if skip { "skip_until" } else { "take_until" },
+    if trigger_thread { "firing from a thread of its own" } else { "silent for ever" }
+  );
+  scn(&name, "to_vec", q, t, move || {
+    let out: Arc<Mutex<Option<Result<Vec<i64>, i64>>>> = Arc::new(Mutex::new(None));
+    let out2 = out.clone();
+    let body: Body = Box::new(move || {
+      let src: Observable<'static, i64> = Observable::create(move |s| {
+        thread::spawn(move || {
+          s.next(1);
+          s.complete();
+        });
+      });
+      let keep: Arc<Mutex<Vec<Observer<'static, i64>>>> = Arc::new(Mutex::new(vec![]));
+      let keep2 = keep.clone();
+      let trig: Observable<'static, i64> = Observable::create(move |s| {
+        if trigger_thread {
+          thread::spawn(move || {
+            s.next(0);
+          });
+        } else {
+          // keeps its observer, never emits
+          keep2.lock().unwrap().push(s.clone());
+        }
+      });
+      let o = if skip { src.skip_until(trig) } else { src.take_until(trig) };
+      let (r, _, _) = block_on(o.to_vec(), 0);
+      *out2.lock().unwrap() = Some(match r {
+        Ok(v) => Ok(v.read().unwrap().clone()),
+        Err(e) => Err(err_code(&e)),
+      });
+      keep.lock().unwrap().clear();
+    });
+    let check: Check = Box::new(move |e: &ExecEnd| {
+      let mut v = base_violations(e, &[]);
+      let o = out.lock().unwrap();
+      match &*o {
+        None => {
+          if v.is_empty() {
+            v.push(viol("future-never-ready", format!("block_on did not return although the source has completed; threads {}", thread_summary(e))));
+          }
+        }
+        Some(Ok(items)) => {
+          let ok = if trigger_thread { items.is_empty() || *items == vec![1] } else if skip { items.is_empty() } else { *items == vec![1] };
+          if !ok {
+            v.push(viol("wrong-result", format!("to_vec yielded {:?}", items)));
+          }
+        }
+        Some(Err(k)) => v.push(viol("wrong-result", format!("to_vec yielded Err({})", k))),
+      }
+      Verdict { outcome: format!("{:?}", *o), violations: v }
+    });
+    (body, check)
+  })
+}
+
 pub fn scenarios() -> Vec<Scn> {
   use Emit::*;
   vec![
@@ -264,6 +326,10 @@ pub fn scenarios() -> Vec<Scn> {
     tovec_scn_x(vec![N(1), E(7)], false, 2, Some(2), Some(4)),
     tovec_scn_y(vec![N(1), C], false, 0, true, Some(2), Some(4)),
     merged_scn(Some(2), Some(3)),
+    gated_scn(true, false, Some(2), Some(4)),
+    gated_scn(true, true, Some(2), Some(3)),
+    gated_scn(false, false, Some(2), Some(4)),
+    gated_scn(false, true, Some(2), Some(3)),
     piped_scn(false, true, Some(1), Some(2)),
     piped_scn(false, false, Some(1), Some(2)),
     piped_scn(true, false, Some(1), Some(2)),
